@@ -324,6 +324,80 @@ def run_vmap(ctx, i, rng):
     ctx.check(set(upd) == set(want_upd) and close(upd, want_upd), 'vmap:variables', lambda: dict(case=desc))
 
 
+def run_nested(ctx, i, rng):
+  """nn.scan over an nn.vmap-ed body (and vmap over a scan-ed body): equal to the double Python loop over doubly sliced variables."""
+  import jax
+  import flax.linen as nn
+  from flax.core import unfreeze
+  B = body_classes()
+  d = rng.randint(1, 2)
+  inner = gen_inner(rng, d, ['state', 'batch_stats'])
+  cols = cols_of(inner)
+  T, n = rng.randint(1, 3), rng.randint(1, 3)
+  order = ['scan_of_vmap', 'vmap_of_scan'][i % 2]
+  a_v = {c: 0 for c in cols}
+  a_s = {c: 0 for c in cols}
+  a_v['params'] = rng.choice([0, 1])
+  a_s['params'] = rng.choice([0, 1])
+  reverse = rng.random() < 0.3
+  desc = dict(order=order, inner=repr(inner)[:400], d=d, T=T, n=n, vmap_axes=a_v, scan_axes=a_s, reverse=reverse)
+  with ctx.case('nested', i, desc, nontrivial=T >= 2 and n >= 2):
+    vm = lambda tgt: nn.vmap(tgt, variable_axes=dict(a_v), split_rngs={'params': True}, in_axes=0, out_axes=0, axis_size=n)
+    sc = lambda tgt: nn.scan(tgt, variable_axes=dict(a_s), split_rngs={'params': True}, in_axes=0, out_axes=0, length=T, reverse=reverse)
+    M = sc(vm(B['Body'])) if order == 'scan_of_vmap' else vm(sc(B['Body']))
+    m, body = M(inner, d), B['Body'](inner, d)
+    nr = np.random.default_rng(rng.getrandbits(32))
+    bsz = 2
+    c0 = nr.uniform(-1, 1, size=(n, bsz, d)).astype(np.float32)
+    # xs indexed [t][k]
+    xs_tk = [[nr.uniform(-1, 1, size=(bsz, d)).astype(np.float32) for _ in range(n)] for _ in range(T)]
+    if order == 'scan_of_vmap':
+      xs = np.stack([np.stack(row) for row in xs_tk])                      # (T, n, b, d)
+    else:
+      xs = np.stack([np.stack([xs_tk[t][k] for t in range(T)]) for k in range(n)])  # (n, T, b, d)
+    rngs = {'params': jax.random.key(i)}
+    V = unfreeze(m.init(rngs, c0, xs))
+    ctx.op('nn.scan+nn.vmap nested')
+    mut = [c for c in cols if c != 'params']
+    (cT, ys), upd = m.apply(V, c0, xs, mutable=mut)
+    upd = unfreeze(upd)
+
+    def slice2(tree, col, t, k):
+      # outer transform's axis was inserted last: remove it first
+      if order == 'scan_of_vmap':
+        return take(take(tree, a_s[col], t), a_v[col], k)
+      return take(take(tree, a_v[col], k), a_s[col], t)
+
+    c_ref = [None] * n
+    ys_ref = [[None] * n for _ in range(T)]
+    upd_ref = {col: [[None] * n for _ in range(T)] for col in mut}
+    for k in range(n):
+      c = c0[k]
+      for t in (range(T - 1, -1, -1) if reverse else range(T)):
+        Vt = {col: slice2(V[col], col, t, k) for col in V}
+        (c, y), u = body.apply(Vt, c, xs_tk[t][k], mutable=mut)
+        ys_ref[t][k] = np.asarray(y)
+        for col in mut:
+          if col in u:
+            upd_ref[col][t][k] = unfreeze(u)[col]
+      c_ref[k] = np.asarray(c)
+    if order == 'scan_of_vmap':
+      ys_want = np.stack([np.stack(ys_ref[t]) for t in range(T)])
+    else:
+      ys_want = np.stack([np.stack([ys_ref[t][k] for t in range(T)]) for k in range(n)])
+    ctx.check(close(cT, np.stack(c_ref)) and close(ys, ys_want), 'nested:outputs', lambda: dict(case=desc))
+    ok = True
+    for col in mut:
+      if col not in V:
+        continue
+      if order == 'scan_of_vmap':
+        want = stack([stack(upd_ref[col][t], a_v[col]) for t in range(T)], a_s[col])
+      else:
+        want = stack([stack([upd_ref[col][t][k] for t in range(T)], a_s[col]) for k in range(n)], a_v[col])
+      ok = ok and col in upd and close(upd[col], want)
+    ctx.check(ok, 'nested:variables', lambda: dict(case=desc))
+
+
 def run_rng(ctx, i, rng):
   """split streams give every iteration / index a different key, unsplit streams the same key."""
   import jax
@@ -423,6 +497,8 @@ def run(ctx):
     run_scan(ctx, i, ctx.rng('scan', i))
   for i in ctx.indices(100 if ctx.tier == 'quick' else 1200, 'vmap'):
     run_vmap(ctx, i, ctx.rng('vmap', i))
+  for i in ctx.indices(30 if ctx.tier == 'quick' else 400, 'nested'):
+    run_nested(ctx, i, ctx.rng('nested', i))
   for i in ctx.indices(24 if ctx.tier == 'quick' else 200, 'rng'):
     run_rng(ctx, i, ctx.rng('rng', i))
   for i in ctx.indices(10 if ctx.tier == 'quick' else 60, 'remat_scan'):
